@@ -78,6 +78,35 @@ prop("C07",
 EXTRA_LANES["C07"] = [release_lane(), miri_lane()]
 
 
+prop("C08",
+     title="Filter strings compile to the RFC 4511 filter they denote",
+     rule="(generated) random filter ASTs (depth<=5, width<=4, descr/numeric-OID attribute descriptions with options, matching-rule names incl. names extending the keyword 'dn', values over all 256 bytes) rendered with a random legal escaping choice per byte and with/without outer parentheses, compiled by parse_filter, BER-decoded by the harness and compared with the AST; (exhaustive) every string of length<=5 (quick) / <=6 (thorough) over the 16-symbol alphabet ()&|!=*\\:a1;~<dn judged by the decision table: reference accepts => library must accept with the same AST; library accepts => decoded BER printed canonically must equal the input up to escaping and must not fall in a must-reject class; (mutated) random byte strings and 1-2 character mutations of valid strings; (rejection) the property's rejection classes and the RFC 4515 examples as literals. distinct = distinct input strings that the grammar or the library accepts (exhaustive lane) / distinct strings (other lanes)",
+     claim="held on every generated, enumerated and mutated string of this run; exhaustive over the stated short-string space; panics are caught per input and are violations",
+     design="3/C08", technique="differential monitor against an independent RFC 4515 parser + BER filter decoder; exhaustive short-string enumeration; accepted-means-what-it-says round trip",
+     note="trusted base: harness RFC 4515 reference parser/printer and RFC 4511 filter decoder (self-checked against each other on every generated case); a matching rule literally named 'dn' is an ABNF ambiguity and is not judged")
+
+prop("C09",
+     title="Escaped text is inert: escaping then parsing returns the original value",
+     rule="every string of length<=2 over ASCII 0..127 and every string of length<=4 over 25 symbols (20 filter/DN metacharacters incl. NUL, space and '#', 3 ordinary, 2 multibyte), plus random Unicode strings biased to leading/trailing space/'#'/backslash; each is ldap_escape'd and embedded as equality, composite, extensible and initial/any/final substring assertion value (parse_filter + harness BER decoder must return the original bytes and the template's structure), round-tripped through ldap_unescape, and dn_escape'd into 'cn=<v>,ou=x+uid=<v>,dc=y' which a strict RFC 4514 parser written for the harness must read back as the same RDN structure with value v; strings needing no escaping must come back unchanged (Cow::Borrowed). distinct = distinct input strings",
+     claim="held on every enumerated and generated string of this run; exhaustive over the two stated short-string spaces",
+     design="3/C09", technique="round-trip monitor: library escapers vs library filter parser + independent BER decoder, and vs an independent strict RFC 4514 DN parser",
+     note="trusted base: harness RFC 4514 parser and BER decoder; '=' is treated as needing escape in dn_escape because the library documents it so (RFC 4514 permits it raw)")
+
+prop("C15",
+     title="SearchEntry::construct keeps every attribute value and classifies it correctly",
+     rule="random entries (0-8 distinct attributes, 0-6 values each, values valid UTF-8 (incl. empty, NUL, 4-byte) or invalid UTF-8 (overlong, surrogate, truncated, stray continuation, 5-byte) in any order), BER-encoded by the harness with random length forms, parsed by lber and passed to SearchEntry::construct; plus all 127 valid/invalid orderings of 0..6 values for one attribute. Oracle: DN equal, each attribute in exactly one map, text map iff all values valid UTF-8 with values in order, else binary map holds the same multiset. distinct = distinct encoded entries",
+     claim="held on every generated entry; exhaustive over valid/invalid orderings of up to 6 values",
+     design="3/C15", technique="pure-function monitor with a reference classifier over generated search entries",
+     note="attribute names are distinct within an entry (as RFC 4511 requires of a server)")
+
+prop("C20",
+     title="LDAP URL parameters are extracted as RFC 4516 defines them",
+     rule="random component tuples (host present/absent, DN and filter over arbitrary Unicode incl. ? , = % # space / and control characters, attribute lists, each scope word or none, every subset of the recognised extensions with case variants plus unknown ones, critical or not, with/without values, every subset of omitted components, 0-2 trailing bare '?') formatted by a harness RFC 4516 formatter that percent-encodes with a random legal choice per byte; get_url_params(Url::parse(url)) must return exactly the components with the documented defaults; unknown critical extension => error, unknown non-critical => ignored; plus literal error-class URLs (invalid scope word, non-UTF-8 percent sequences in DN/filter/extension value, unknown critical extension) and the RFC 4516 section 4 examples. distinct = distinct URL strings",
+     claim="held on every generated URL and literal case of this run",
+     design="3/C20", technique="round-trip monitor: harness RFC 4516 formatter vs get_url_params",
+     note="DNs equal to '.' or '..' are excluded (the URL standard's dot-segment removal, not the library, would drop them); '/' in a DN is always percent-encoded by the formatter for the same reason; upper-case scope words are counted, not judged")
+
+
 # ---- properties not (yet) claimed ----
 def _na():
     out = []
